@@ -18,7 +18,7 @@ def check(path):
     ev = sorted(lines[1:], key=lambda e: e["t"])
     subj = cfg["subject_name"]
     batchy = cfg["subject"] < 4
-    decoys = cfg.get("extra_processors", 0) > 0
+    decoys = False  # decoy exporters carry their own id in field a of their flush/shutdown events
     recs = {}       # (p,s) -> dict(call, ret, delivered, enter, exit)
     batches = []    # dict(id, enter, exit, items)
     by_id = {}
@@ -50,13 +50,17 @@ def check(path):
             if not decoy and a in by_id:
                 by_id[a]["exit"] = t
         elif ty == "exp_flush_enter":
-            open_f[tid] = t
+            if a == 0:
+                open_f[tid] = t
         elif ty == "exp_flush_exit":
-            exp_flush.append((open_f.get(tid, 0), t))
+            if a == 0:
+                exp_flush.append((open_f.get(tid, 0), t))
         elif ty == "exp_shutdown_enter":
-            open_s[tid] = t
+            if a == 0:
+                open_s[tid] = t
         elif ty == "exp_shutdown_exit":
-            exp_shutdown.append((open_s.get(tid, 0), t))
+            if a == 0:
+                exp_shutdown.append((open_s.get(tid, 0), t))
         elif ty == "flush_call":
             flushes[a] = {"call": t, "ret": None, "arg": b, "result": 0}
         elif ty == "flush_ret":
